@@ -1,4 +1,4 @@
-import DadiVerif.Lemmas.DataDictProj
+import DadiVerif.Lemmas.DataDictCorr
 /-!
 # C13 — genotype data become the spectrum and statistics that direct counting gives
 
@@ -1086,11 +1086,11 @@ theorem C13_fst_wc_theta (ns : List ℕ) (hr : 2 ≤ ns.length) (h2 : ∀ n ∈ 
     saved mask) the mask of the spectrum is the mask it had before, whatever the data, the shape and the mask: the corner
     entries masked for the sum are visible again iff they were before.  (Data, folded flag and labels are not written by any
     statement of the translated language.) -/
-theorem C13_S_pure (proj : List ℕ) (f : List ℕ → ℚ) (m : List ℕ → Bool) : (sRun proj f m).live = m := rfl
+theorem C13_S_pure (proj : List ℕ) (f : List ℕ → ℚ) (m : List ℕ → Bool) : (sRun proj f m).live = m := by rfl
 
 /-- … and the value returned is the sum of the entries visible under `m` outside the two corners -/
 theorem C13_S_value (proj : List ℕ) (f : List ℕ → ℚ) (m : List ℕ → Bool) :
-    (sRun proj f m).s = boxSum (shapeOf proj) fun idx => if m idx || isCorner proj idx then 0 else f idx := rfl
+    (sRun proj f m).s = boxSum (shapeOf proj) fun idx => if m idx || isCorner proj idx then 0 else f idx := by rfl
 
 /-- for a one-population spectrum without masked entries this is the `sOf` the statistics theorems are about -/
 theorem C13_S_run (n : ℕ) (f : ℕ → ℚ) :
@@ -1117,7 +1117,7 @@ example : (sRunWith [.saveAlias, .maskCorners, .sumVisible, .restore] [2] (fun _
 
 /-- no other statistic (`Watterson_theta`, `theta_L`, `pi`, `Tajima_D`, `Fst`, `Zengs_E`) contains a statement that assigns to
     the receiver or calls one of its methods other than the read-only ones and `S` (syntactic scan of the source, T) -/
-theorem C13_stats_read_only : statsSelfWrites = [] := rfl
+theorem C13_stats_read_only : statsSelfWrites = [] := by rfl
 
 /-! ## the composition: bootstraps of a sub-sampled VCF (`Misc.bootstraps_subsample_vcf`) -/
 
@@ -1320,6 +1320,171 @@ example : SubPass true [(0, 1)] [0] (DrawsValid [(0, 1)])
   subst this
   decide
 
+/-! ## the spectrum corrected for ancestral misidentification (`Spectrum.from_data_dict_corrected`) -/
+
+/-- **which SNPs the correction applies to**: a SNP `_data_by_tri` keeps (generated `triSkip`) is biallelic, has both contexts with the
+    same flanking bases (all four of them A/C/G/T), segregating alleles that are bases, and an outgroup base — the middle base of the
+    outgroup context, which is the recorded outgroup allele — that is one of the two alleles; hence it is POLARISED in the sense of
+    `count_data_dict` (`C13_polarised_iff`), its class key holds the allele that differs from the outgroup base, and that is the allele
+    whose calls `count_data_dict` counts as derived: the class spectra of the correction are sums of polarised contributions -/
+theorem C13_corrected_kept (t : TriSnp) (k : TriKey) (h : triClassify t = .keep k) :
+    t.snp.nseg = 2 ∧ t.hasCtx = true ∧ t.snp.out = some t.o1 ∧ t.o0 = t.i0 ∧ t.o2 = t.i2 ∧
+    isBase t.i0 = true ∧ isBase t.i2 = true ∧ isBase t.snp.a1 = true ∧ isBase t.snp.a2 = true ∧ (t.o1 = t.snp.a1 ∨ t.o1 = t.snp.a2) ∧
+    t.snp.polarized = true ∧
+    k = ((t.i0, (if t.snp.a1 = t.o1 then t.snp.a2 else t.snp.a1), t.i2), t.o1) ∧
+    t.snp.derived = t.snp.calls.map (if t.snp.a1 = t.o1 then Prod.snd else Prod.fst) := by
+  unfold triClassify at h
+  have hb : triBiallelicLen = 2 := rfl
+  by_cases h1 : t.snp.nseg ≠ triBiallelicLen
+  · rw [if_pos h1] at h; cases h
+  rw [if_neg h1] at h
+  by_cases h2 : (!t.hasCtx) = true
+  · rw [if_pos h2] at h; cases h
+  rw [if_neg h2] at h
+  cases ho : t.snp.out with
+  | none => rw [ho] at h; cases h
+  | some og0 =>
+    rw [ho] at h
+    simp only at h
+    by_cases h3 : t.o1 ≠ og0
+    · rw [if_pos h3] at h; cases h
+    rw [if_neg h3] at h
+    by_cases h4 : triSkip (t.o0 == t.i0) (t.o2 == t.i2) (isBase t.i0) (isBase t.i2) (t.o1 == t.snp.a1 || t.o1 == t.snp.a2)
+        (isBase t.snp.a1) (isBase t.snp.a2) = true
+    · rw [if_pos h4] at h; cases h
+    rw [if_neg h4] at h
+    have h3' : t.o1 = og0 := by simpa using h3
+    simp only [triSkip, Bool.or_eq_true, Bool.not_eq_true', not_or, Bool.not_eq_false] at h4
+    obtain ⟨⟨⟨⟨⟨⟨s0, s2⟩, b0⟩, b2⟩, hin⟩, ba1⟩, ba2⟩ := h4
+    have s0' : t.o0 = t.i0 := by simpa using s0
+    have s2' : t.o2 = t.i2 := by simpa using s2
+    have hin' : t.o1 = t.snp.a1 ∨ t.o1 = t.snp.a2 := by simpa using hin
+    have hnd : t.o1 ≠ dash := by
+      intro e
+      rcases hin' with e' | e'
+      · rw [← e', e] at ba1; simp [isBase, dash] at ba1
+      · rw [← e', e] at ba2; simp [isBase, dash] at ba2
+    have hpol : t.snp.polarized = true := (C13_polarised_iff t.snp).mpr ⟨t.o1, by rw [ho, h3'], hnd, hin'⟩
+    have hk : k = ((t.i0, triDerived t, t.i2), t.o1) := by
+      injection h with h; exact h.symm
+    have hder : triDerived t = if t.snp.a1 = t.o1 then t.snp.a2 else t.snp.a1 := by
+      unfold triDerived
+      by_cases e : t.snp.a1 = t.o1 <;> simp [e, triDerivedIfA1Outgroup, triDerivedIfA2Outgroup]
+    refine ⟨by simpa [hb] using h1, by simpa using h2, by rw [h3'], s0', s2', b0, b2, ba1, ba2, hin', hpol, by rw [hk, hder], ?_⟩
+    by_cases e : t.snp.a1 = t.o1
+    · rw [if_pos e]
+      exact (C13_polarise t.snp).1 hpol (by rw [ho, e, h3'])
+    · rw [if_neg e]
+      have e2 : t.o1 = t.snp.a2 := hin'.resolve_left fun x => e x.symm
+      exact (C13_polarise t.snp).2.1 hpol (by rw [ho, ← e2, h3']) (fun x => e (by rw [x, e2]))
+
+example : triClassify ⟨⟨0, 7, 0, 2, 1, 4, some 4, [(3, 5)]⟩, true, 2, 3, 2, 4, 3⟩ = .keep ((2, 1, 3), 4) ∧
+    triClassify ⟨⟨0, 7, 0, 2, 1, 4, some 3, [(3, 5)]⟩, true, 2, 3, 2, 3, 3⟩ = .skip ∧
+    triClassify ⟨⟨0, 7, 0, 2, 1, 4, some 4, [(3, 5)]⟩, true, 2, 3, 2, 1, 3⟩ = .valueError := by decide
+
+/-- **one pair of classes** (the generated `corrRux`, `corrRxuInner`, `corrAcc`; eqs. 5 and 6 of Hernandez et al.): whatever the two
+    misidentification entries `fux`, `fxu` of the table (as long as `fux + fxu ≠ 1`), the pair's contribution totals the two class
+    spectra's totals — the correction moves SNPs between an entry and its mirror image and between the two classes, it creates and
+    loses none; and with no misidentification (`fux = fxu = 1`, the file holds 0) it is the sum of the two class spectra, entry by entry -/
+theorem C13_corrected_pair (proj : List ℕ) (fux fxu : ℚ) (nomis mis : List Snp) :
+    (fux + fxu - 1 ≠ 0 →
+      boxSum (shapeOf proj) (corrPairAt proj fux fxu nomis mis)
+        = boxSum (shapeOf proj) (spectrumAt true proj nomis) + boxSum (shapeOf proj) (spectrumAt true proj mis)) ∧
+    (∀ idx, InBox idx (shapeOf proj) →
+      corrPairAt proj 1 1 nomis mis idx = spectrumAt true proj nomis idx + spectrumAt true proj mis idx) := by
+  have hp : corrClassPolarized = true := rfl
+  constructor
+  · intro hD
+    set u := spectrumAt true proj nomis with hu
+    set v := spectrumAt true proj mis with hv
+    have hpt : corrPairAt proj fux fxu nomis mis = fun idx =>
+        (fxu / (fux + fxu - 1)) * u idx + (-(1 - fxu) / (fux + fxu - 1)) * (fun i => v (mirror proj i)) idx
+        + ((fux / (fux + fxu - 1)) * (fun i => (fun j => v (mirror proj j)) (mirror proj i)) idx
+          + (-(1 - fux) / (fux + fxu - 1)) * (fun i => u (mirror proj i)) idx) := by
+      funext idx
+      simp only [corrPairAt, hp, corrAcc, corrRux, corrRxuInner, ← hu, ← hv]
+      field_simp
+      ring
+    rw [hpt, boxSum_add, boxSum_add, boxSum_add, boxSum_mul_left, boxSum_mul_left, boxSum_mul_left, boxSum_mul_left,
+      boxSum_mirror proj (fun j => v (mirror proj j)), boxSum_mirror proj v, boxSum_mirror proj u]
+    field_simp
+    ring
+  · intro idx hidx
+    simp only [corrPairAt, hp, corrAcc, corrRux, corrRxuInner, mirror_mirror hidx]
+    ring
+
+/-- **`force_pos` conserves the total** (negative entries are removed and added to the mirrored entry) -/
+theorem C13_corrected_force_pos (proj : List ℕ) (u : List ℕ → ℚ) :
+    boxSum (shapeOf proj) (forcePosAt proj u) = boxSum (shapeOf proj) u := forcePosAt_total proj u
+
+/-- **the corrected spectrum, whole function** (`_data_by_tri` grouping, the `while by_context` loop over pairs of classes, `force_pos`):
+    whatever the table (no pair with `fux + fxu = 1`), with or without `force_pos`, its total is the number of usable SNPs among the
+    SNPs the correction applies to (`correctable`: `C13_corrected_kept`) — every class is visited exactly once, the correction
+    conserves the number of SNPs -/
+theorem C13_corrected_total (proj : List ℕ) (F : TriKey → ℚ) (fp : Bool) (ts : List TriSnp) (u : List ℕ → ℚ)
+    (h : correctedAt proj F fp ts = some u) (hF : ∀ k, F k + F (misKey k) - 1 ≠ 0)
+    (hlen : ∀ t ∈ ts, t.snp.calls.length = proj.length) :
+    boxSum (shapeOf proj) u = (countUsable true proj (correctable ts) : ℚ) := by
+  unfold correctedAt at h
+  cases hg : byContext ts [] with
+  | none => simp [hg] at h
+  | some g =>
+    simp only [hg, Option.map_some, Option.some.injEq] at h
+    have hl : ∀ s ∈ correctable ts, s.calls.length = proj.length := by
+      intro s hs
+      obtain ⟨t, ht, e⟩ := List.mem_filterMap.mp hs
+      cases hc : triClassify t <;> simp [hc] at e
+      subst e; exact hlen t ht
+    obtain ⟨hn, hsum⟩ := byContext_spec ts [] g hg (by simp)
+      (fun s => boxSum (shapeOf proj) (snpSpecAt true proj s))
+    have hG : ∀ l : List Snp, boxSum (shapeOf proj) (spectrumAt true proj l) = sumMap l fun s => boxSum (shapeOf proj) (snpSpecAt true proj s) := by
+      intro l
+      have : spectrumAt true proj l = fun idx => sumMap l (fun s => snpSpecAt true proj s idx) := by
+        funext idx; exact C13_sum_of_snps true proj l idx
+      rw [this, boxSum_sumMap]
+    have hloop := corrLoop_additive proj F (boxSum (shapeOf proj)) (fun l => boxSum (shapeOf proj) (spectrumAt true proj l))
+      (fun a b => boxSum_add _ a b)
+      (by have : spectrumAt true proj [] = fun _ => 0 := funext fun idx => spectrumAt_nil true proj idx
+          rw [this, boxSum_zero])
+      (fun k nomis mis => (C13_corrected_pair proj (F k) (F (misKey k)) nomis mis).1 (hF k))
+      g.length g (fun _ => 0) (le_refl _) hn
+    have htot : boxSum (shapeOf proj) (corrLoop proj F g.length g fun _ => 0) = (countUsable true proj (correctable ts) : ℚ) := by
+      rw [hloop, boxSum_zero, zero_add]
+      simp only [hG]
+      rw [hsum]
+      simp only [sumMap_nil, zero_add]
+      rw [← hG, C13_total true proj _ hl]
+    rw [← h]
+    cases fp with
+    | true => simp only [if_true]; rw [forcePosAt_total, htot]
+    | false => simpa using htot
+
+/-- **no misidentification** (the table holds 0 everywhere, `fux = 1`): the corrected spectrum before `force_pos` is, entry by entry, the
+    spectrum `from_data_dict` gives for the SNPs the correction applies to -/
+theorem C13_corrected_zero (proj : List ℕ) (ts : List TriSnp) (u : List ℕ → ℚ)
+    (h : correctedAt proj (fun _ => corrFuxOfFile 0) false ts = some u) (idx : List ℕ) (hidx : InBox idx (shapeOf proj)) :
+    u idx = spectrumAt true proj (correctable ts) idx := by
+  have hone : corrFuxOfFile 0 = 1 := by norm_num [corrFuxOfFile]
+  unfold correctedAt at h
+  cases hg : byContext ts [] with
+  | none => simp [hg] at h
+  | some g =>
+    simp only [hg, Option.map_some, Option.some.injEq, Bool.false_eq_true, if_false] at h
+    obtain ⟨hn, hsum⟩ := byContext_spec ts [] g hg (by simp) (fun s => snpSpecAt true proj s idx)
+    have hloop := corrLoop_additive proj (fun _ => corrFuxOfFile 0) (fun a => a idx) (fun l => spectrumAt true proj l idx)
+      (fun _ _ => rfl) (spectrumAt_nil true proj idx)
+      (fun k nomis mis => by
+        show corrPairAt proj (corrFuxOfFile 0) (corrFuxOfFile 0) nomis mis idx = _
+        rw [hone]; exact (C13_corrected_pair proj 1 1 nomis mis).2 idx hidx)
+      g.length g (fun _ => 0) (le_refl _) hn
+    rw [← h, hloop]
+    simp only [C13_sum_of_snps, zero_add]
+    rw [hsum]
+    simp
+
+example : correctable [⟨⟨0, 7, 0, 2, 1, 4, some 4, [(3, 5)]⟩, true, 2, 3, 2, 4, 3⟩, ⟨⟨0, 9, 0, 2, 1, 4, some 3, [(3, 5)]⟩, true, 2, 3, 2, 3, 3⟩]
+    = [⟨0, 7, 0, 2, 1, 4, some 4, [(3, 5)]⟩] := by decide
+
 /-! ## structure of the source as the model assumes it (T) -/
 
 /-- the statement-level shape of the translated functions is the one the model hard-wires: accumulation
@@ -1330,9 +1495,9 @@ example : SubPass true [(0, 1)] [0] (DrawsValid [(0, 1)])
 theorem C13_source_shape :
     accumulateShapeOk = true ∧ foldIffUnpolarized = true ∧ fromDataDictShapeOk = true ∧ sShapeOk = true ∧
     keyParseShapeOk = true ∧ chunkLoopShapeOk = true ∧ chunkRebuildShapeOk = true ∧ bootstrapShapeOk = true ∧
-    foldMaskShapeOk = true ∧
+    foldMaskShapeOk = true ∧ triShapeOk = true ∧ corrLoopShapeOk = true ∧ corrForcePosShapeOk = true ∧
     (∀ p n i, weightArgs p n i = (p, n, i)) ∧ biallelicLen = 2 ∧ (∀ a b, successfulCalls a b = a + b) ∧
     keyBuilt = ["successful_calls", "derived_calls", "this_snp_polarized"] := by
-  refine ⟨rfl, rfl, rfl, rfl, rfl, rfl, rfl, rfl, rfl, fun _ _ _ => rfl, rfl, fun _ _ => rfl, rfl⟩
+  refine ⟨rfl, rfl, rfl, rfl, rfl, rfl, rfl, rfl, rfl, rfl, rfl, rfl, fun _ _ _ => rfl, rfl, fun _ _ => rfl, rfl⟩
 
 end DadiVerif
